@@ -140,6 +140,13 @@ def quick_extra_cfgs():
         ('draw-hu-reduced-lattice', C.nt((3, 5), game='NoLimitDeuceToSevenLowballSingleDraw'), {'raises': 'minmax', 'discards': ('none', 'first')}),
         ('triple-draw-hu-reduced-lattice', C.fl((3, 6), game='FixedLimitDeuceToSevenLowballTripleDraw'), {'discards': ('none', 'first'), 'fold': False}),
         ('stud-hu-reduced-lattice', C.stud((3, 6)), {}),
+        # forced bets that only some seats owe: a big-blind ante heads-up (seat 0 alone), a single seat's ante, a button ante,
+        # a straddle and a late-seat post
+        ('forced-bet-layouts-reduced-lattice', C.nt((5, 6), antes={1: 2}), {'raises': 'min'}),
+        ('forced-bet-layouts-reduced-lattice', C.nt((5, 6, 7), antes=(2, 0, 0)), {'raises': 'min'}),
+        ('forced-bet-layouts-reduced-lattice', C.nt((5, 6, 7), antes={1: 2}), {'raises': 'min'}),
+        ('forced-bet-layouts-reduced-lattice', C.nt((5, 6, 7), antes={-1: 2}, blinds=(1, 2, 4)), {'raises': 'min'}),
+        ('forced-bet-layouts-reduced-lattice', C.nt((5, 6, 7), antes=(0, 1, 1), blinds=(0, 2, -2)), {'raises': 'min'}),
     ]
 
 
